@@ -82,9 +82,53 @@ def check_C18(ctx):
     return ctx.finish()
 
 
+def tag_skeleton(hexs):
+    """nested list of the tags of a TTLV byte string (structures recursed into)"""
+    try:
+        b = bytes.fromhex(hexs) if hexs != "_" else b""
+    except ValueError:
+        return None
+    def walk(b):
+        out, off = [], 0
+        while off + 8 <= len(b):
+            tag = b[off:off + 3].hex()
+            typ = b[off + 3]
+            l = int.from_bytes(b[off + 4:off + 8], "big")
+            pl = l + (-l % 8)
+            if off + 8 + pl > len(b):
+                return out + ["<overrun>"]
+            out.append([tag, walk(b[off + 8:off + 8 + l])] if typ == 1 else tag)
+            off += 8 + pl
+        return out
+    return walk(b)
+
+
+def wire_tags_tie(ctx, facts):
+    """C19, dynamic half: the tags the real encoder puts on the wire for values of every structure type -
+    fresh and after other encodes (the codec suite interleaves all types in one process) - against the model,
+    whose tags come from the regenerated annotations proved against SpecSchema.v"""
+    if not (facts.get("harness_ok") and facts.get("ocaml_ok")):
+        return
+    rep, rows = run_codec(ctx, facts, 120 if ctx.tier == "quick" else 2000)
+    rows = [r for r in rows if r[0] in ("enc-wf", "rt")]
+    ctx.cov["wire_tag_cases"] = len(rows)
+    bad = 0
+    for g, cmd, impl, model in rows:
+        pi, pm = impl.split(" "), model.split(" ")
+        if pi[0] != "ok" or pm[0] != "ok" or len(pi) < 2 or len(pm) < 2:
+            continue
+        si, sm = tag_skeleton(pi[1]), tag_skeleton(pm[1])
+        if si != sm:
+            bad += 1
+            if bad <= 3:
+                ctx.violation("wire-tags", {"what": "a value of this structure type went on the wire under other tags / nesting than the annotations (proved against the KMIP 1.4 table) assign",
+                                            "value": short(cmd.split(" ", 1)[1], 3000), "wire_tags": json.dumps(si)[:1500], "expected_tags": json.dumps(sm)[:1500]})
+
+
 def check_C19(ctx):
-    facts = prepare(ctx, need_ocaml=False)
+    facts = prepare(ctx, need_ocaml=True)
     rep = tables_tie(ctx, facts)
+    wire_tags_tie(ctx, facts)
     ctx.cov["exhaustive"] = True
     ctx.assumptions += [
         "SpecSchema.v is a faithful transcription of KMIP 1.4 sections 2, 3, 4, 6, 7 for the modelled structures (see DESIGN.md)",
@@ -241,6 +285,112 @@ def check_C13(ctx):
         for v in rep["violations"]:
             if v["kind"].startswith("target-"):
                 ctx.violation("target", v)
+    if broken and not ctx.violations:
+        ctx.violation("theorem", broken, found_input=False)
+    return ctx.finish()
+
+
+def check_C01(ctx):
+    facts, rep, rows, broken = codec_common(ctx, {"rt"}, 300, 4000)
+    ctx.assumptions += CODEC_ASSUME
+    bad = 0
+    for g, cmd, impl, model in rows:
+        if impl == model:
+            continue
+        pi, pm = impl.split(" "), model.split(" ")
+        # rt lines: ok <bytes> <decoded value ...> <re-encoded identical 0|1>; the model's line is what a correct implementation prints
+        if pi[:2] != pm[:2] and pi[0] == "ok" and pm[0] == "ok":
+            continue     # different bytes: that is C02's finding, not a round-trip failure in itself
+        bad += 1
+        if bad <= 5:
+            what = "decoding the bytes Encode produced does not give back the (normalised) value, or re-encoding the decoded value gives other bytes"
+            if pi[-1] == "0":
+                what = "re-encoding the decoded value does not reproduce the identical bytes (or Decode left / took extra bytes)"
+            ctx.violation("roundtrip", {"what": what, "value": cmd.split(" ", 1)[1],
+                                        "implementation (ok <bytes> <decoded> <re-encode identical>)": short(impl, 3000),
+                                        "expected": short(model, 3000)})
+    if broken and not ctx.violations:
+        ctx.violation("theorem", broken, found_input=False)
+    return ctx.finish()
+
+
+def check_C04(ctx):
+    facts, rep, rows, broken = codec_common(ctx, {"dec-valid", "dec-mut", "dec-random", "dec-trunc", "dec-noncanon"}, 300, 5000)
+    ctx.assumptions += CODEC_ASSUME
+    bad = 0
+    for g, cmd, impl, model in rows:
+        if impl == model:
+            continue
+        wi, wm = first_word(impl), first_word(model)
+        if wi in ("panic", "hang"):
+            continue      # C03's finding
+        if {wi, wm} <= {"eof", "err"}:
+            continue      # both reject; which error is not part of this property
+        bad += 1
+        if bad <= 5:
+            if wi == "ok" and wm != "ok":
+                what = "Decode accepted bytes that are not a well-formed encoding (the specification decoder rejects them)"
+            elif wi != "ok" and wm == "ok":
+                what = "Decode rejected a valid encoding"
+            else:
+                what = "Decode accepted the bytes but reports another value than they denote (or consumed a different number of bytes)"
+            ctx.violation("decode", {"what": what, "case": short(cmd, 4000), "implementation": short(impl, 1500), "specification": short(model, 1500)})
+    if rep:
+        for v in rep["violations"]:
+            if v["kind"] == "truncation-accepted":
+                ctx.violation("truncation", v)
+    if broken and not ctx.violations:
+        ctx.violation("theorem", broken, found_input=False)
+    return ctx.finish()
+
+
+def check_C06(ctx):
+    facts, rep, rows, broken = codec_common(ctx, {"stream"}, 300, 3000)
+    ctx.assumptions += CODEC_ASSUME + ["fragmentation is applied on the implementation (every two-way split, one-byte, random chunks, data with EOF, empty reads, 16-byte bufio; buffered and unbuffered top level) and compared with the in-memory result, which is compared with the model"]
+    bad = 0
+    for g, cmd, impl, model in rows:
+        if impl != model:
+            bad += 1
+            if bad <= 4:
+                ctx.violation("stream", {"what": "successive Decode calls on one Decoder do not return the messages of the stream one by one followed by the expected end",
+                                         "case": short(cmd, 4000), "implementation": short(impl, 2000), "model": short(model, 2000)})
+    if rep:
+        for v in rep["violations"]:
+            if v["kind"].startswith("stream-"):
+                ctx.violation(v["kind"], v)
+    if broken and not ctx.violations:
+        ctx.violation("theorem", broken, found_input=False)
+    return ctx.finish()
+
+
+def check_C05(ctx):
+    facts = prepare(ctx)
+    broken = None
+    if not facts["prop_ok"]:
+        broken = theorem_broken(ctx, facts, "Properties/C05.v no longer checks")
+    if not facts.get("harness_ok"):
+        ctx.violation("harness-build", {"what": "harness does not build against the current tree", "log": tail(facts.get("harness_log", ""))}, found_input=False)
+        return ctx.finish()
+    # run in a child with an address-space limit so that a regression cannot take the sandbox down
+    import resource
+    rc, rep, out, err = run_harness(["alloc", "-seed", str(ctx.seed), "-n", "40" if ctx.tier == "quick" else "600"], timeout=3000,
+                                    env={"GOMEMLIMIT": "3GiB"})
+    if rep is None:
+        ctx.violation("alloc-crash", {"what": "alloc suite crashed (out of memory is itself the violation: a Decode call exhausted the 3 GiB limit)",
+                                      "replay": "harness/harness alloc -seed %d" % ctx.seed, "stderr": tail(err, 30)})
+    else:
+        ctx.cov["evaluations"] = rep["evaluations"]
+        ctx.cov["distinct_nontrivial"] = rep["distinct_nontrivial"]
+        ctx.cov["traces_validated_against_impl"] = rep["evaluations"]
+        ctx.cov["rule"] = rep["rule"]
+        ctx.cov["distribution"] = rep.get("distribution")
+        ctx.cov["samples"] += rep.get("samples", [])
+        for v in rep["violations"][:5]:
+            ctx.violation("alloc", v)
+    # the model side of the tie: same outcome projection as C04 on the same kind of inputs
+    ctx.assumptions += CODEC_ASSUME + [
+        "partial: the Go heap, GC, size classes and reflect's internal allocations are not modelled; what is proved about the model is that values and nested regions are bounded by the bytes really present (never by declared lengths); the linear bound itself (700 bytes per input byte + 64 KiB; steepest legitimate slope: one 4 KiB bufio per 8-byte structure header) is measured on the implementation with runtime.MemStats.TotalAlloc, GC off, one goroutine",
+    ]
     if broken and not ctx.violations:
         ctx.violation("theorem", broken, found_input=False)
     return ctx.finish()
@@ -631,6 +781,7 @@ CHECKS = {"C18": check_C18, "C19": check_C19, "C02": check_C02, "C03": check_C03
                                    "behaviour of Serve on this sequence of Accept results differs from the model of the accept loop (sleeps, served connections, result)",
                                    ["Accept.v is a hand-written model of the accept loop of Server.Serve, tied to /repo by running every sequence over {T,C,P,S} up to the length bound against the real Serve (fault-injecting listener)",
                                     "time.Sleep, the Temporary() classification of net.Error and the select on the done channel are modelled; sleeps are observed through Server.Log and bracketed by the wall clock"], exhaustive=True),
+          "C01": check_C01, "C04": check_C04, "C05": check_C05, "C06": check_C06,
           "C11": check_C11, "C12": check_C12,
           "C14": make_simple_check("C14", "client", ["-n", "150"], ["-n", "3000"],
                                    "result of Client.Send / DiscoverVersions (or the request bytes the peer received) differs from the model",
